@@ -179,11 +179,12 @@ func addSat(a, b int64) int64 {
 }
 
 type replaySpec struct {
-	Kind  string     `json:"kind"`
-	Hard  *hardSpec  `json:"hard,omitempty"`
-	Mono  *monoSpec  `json:"mono,omitempty"`
-	Nano  *nanoSpec  `json:"nano,omitempty"`
-	Setup *setupSpec `json:"setup,omitempty"`
+	Kind   string      `json:"kind"`
+	Hard   *hardSpec   `json:"hard,omitempty"`
+	Mono   *monoSpec   `json:"mono,omitempty"`
+	Nano   *nanoSpec   `json:"nano,omitempty"`
+	Setup  *setupSpec  `json:"setup,omitempty"`
+	Stress *stressSpec `json:"stress,omitempty"`
 }
 
 func replayArg(r replaySpec) string {
@@ -215,6 +216,8 @@ func main() {
 				e.Emit(runNano(*r.Nano, st))
 			case r.Setup != nil:
 				e.Emit(runSetup(*r.Setup))
+			case r.Stress != nil:
+				e.Emit(runStress(*r.Stress, st))
 			}
 			return
 		}
@@ -236,6 +239,8 @@ func main() {
 		genMono(e, st, want("mono"))
 		genNano(e, st, want("nano"))
 		genSetup(e, st, want("setup"))
+		genStress(e, st, want("stress"))
+		genAudit(e)
 		var heavy, light []vh.Case
 		for _, c := range buf {
 			if len(c.Coq) > 40000 {
